@@ -39,9 +39,10 @@ class Factor:
         :param: domain: the domain of this factor
         :param: structural_zeros: a list of values that are not possible
         """
-        idx = tuple(np.array(structural_zeros).T)
         vals = np.zeros(domain.shape)
-        vals[idx] = -np.inf
+        if len(structural_zeros) > 0:
+            idx = tuple(np.array(structural_zeros).T)
+            vals[idx] = -np.inf
         return Factor(domain, vals)
 
     def expand(self, domain):
